@@ -38,6 +38,22 @@ struct NoSmr {
     static const char* name() { return "none"; }
 };
 
+// RCU flavours with the scheduler's mutex as their lock (a real std::mutex held by a descheduled participant would hang the process)
+} // namespace vh
+#include <cds/urcu/general_instant.h>
+#include <cds/urcu/general_buffered.h>
+#include <cds/urcu/general_threaded.h>
+namespace vh {
+
+typedef cds::urcu::gc< cds::urcu::general_instant< cds_verif::mutex > > rcu_gpi;
+typedef cds::urcu::gc< cds::urcu::general_buffered< cds::container::VyukovMPMCCycleQueue< cds::urcu::epoch_retired_ptr >, cds_verif::mutex > > rcu_gpb;
+typedef cds::urcu::gc< cds::urcu::general_threaded< cds::container::VyukovMPSCCycleQueue< cds::urcu::epoch_retired_ptr >, cds_verif::mutex > > rcu_gpt;
+
+// small buffer (2): reclamation happens inside the explored window
+struct GpbHolder { typedef rcu_gpb gc; rcu_gpb rcu; explicit GpbHolder( int ): rcu( 2 ) {} static const char* name() { return "RCUgpb"; } };
+struct GpiHolder { typedef rcu_gpi gc; rcu_gpi rcu; explicit GpiHolder( int ) {} static const char* name() { return "RCUgpi"; } };
+struct GptHolder { typedef rcu_gpt gc; rcu_gpt rcu; explicit GptHolder( int ): rcu( 2 ) {} static const char* name() { return "RCUgpt"; } };
+
 } // namespace vh
 
 #endif
